@@ -79,7 +79,7 @@ def main():
         sh("git -C /repo worktree remove --force /tmp/vsr_%d; rm -rf /tmp/vsw_%d /tmp/vsr_%d" % (k, k, k))
         rc, out = sh("git -C /repo worktree add --detach /tmp/vsr_%d HEAD" % k)
         assert rc == 0, out
-        rc, out = sh("rsync -a --exclude .git --exclude build --exclude replays --exclude seeded %s/ /tmp/vsw_%d/" % (VERIF, k))
+        rc, out = sh("rsync -a --exclude .git --exclude build --exclude replays --exclude seeded %s/ /tmp/vsw_%d/" % (os.environ.get("VERIF_SRC", VERIF), k))
         assert rc == 0, out
         slots.put(k)
 
